@@ -14,7 +14,11 @@ Oracles (from the property statement):
     every input before == after;
   * determinism: a fresh operator built with the same seed gives an equal
     output on equal inputs;
-  * algebra: composition operators vs a reference interpreter on lists.
+  * algebra: composition operators vs a reference interpreter on lists;
+  * symbolic routes: an operator whose parameters (seed included) were set
+    through rebind / attribute assignment / clone(override) / the path of an
+    enclosing composition / a copy behaves like a freshly constructed operator
+    with those parameters (drv_symbolic).
 """
 import itertools
 import math
@@ -2295,8 +2299,585 @@ def drv_schedules(tier, seed):
   return rec.result()
 
 
+# ---------------------------------------------------------------------------
+# Driver 9: parameters that reach an operator through pyglove's symbolic
+# manipulation APIs.  Every operator (and every composition, where.* filter,
+# scalars.* schedule and the Evolution loop itself) is a symbolic object: its
+# parameters can be set at construction, but also by `rebind` (dict / keyword /
+# function form), attribute assignment, `clone(override=...)`, through the
+# path of an enclosing composition or Evolution, by replacing the whole
+# sub-operation, or by copying / serialising an operator.
+#
+# Oracle (statement: "seeded operators are deterministic functions of their
+# seed and inputs", "for every operator class and parameterisation", "composed
+# operation pipelines preserve these guarantees"; selectors return "the
+# documented number"): what an operator does is a function of its *current*
+# parameters (seed included) and its inputs -- not of the way the parameters
+# got there.  An operator whose parameters are P, however it came by them, is
+# called on equal inputs at steps 0, 1, 2 and must yield what a freshly
+# constructed operator with parameters P yields (new DNAs by value, population
+# members by identity); its outputs must be valid + aligned and its inputs
+# untouched.  Routes that start from an operator which was already *called*
+# are only judged where the statement pins the answer down: operators without
+# any random source, and a change of the operator's only seed (the outputs
+# are then a function of the new seed alone).
+# ---------------------------------------------------------------------------
+
+import copy as copy_lib  # pylint: disable=g-import-not-at-top,g-bad-import-order
+
+EXTRA_SPACES.append(
+    ('wide', 'pg.List([pg.oneof(range(6))] * 5 + [pg.floatv(0.0, 1.0), pg.manyof(2, [1, 2, 3, 4])])'))
+EXTRA_SPACES.append(('perm2', 'pg.Dict(p=pg.permutate([1, 2, 3]), q=pg.permutate([1, 2, 3, 4]))'))
+
+SYM_STEPS = (0, 1, 2)
+SYM_DNA_KINDS = ('mut', 'rec2', 'recN')
+SYM_POP_SIZE = dict(sel=6, nested=6, mut=2, rec2=2, recN=3, evo=0)
+
+
+_SYM_POP = {}
+
+
+def sym_pop(kind, name, seed):
+  """The input population drv_symbolic uses for operators of `kind` (cached
+  with its snapshot: operators must not modify it, which every check
+  verifies)."""
+  k = (kind, name, seed)
+  if k not in _SYM_POP:
+    r = rng(seed, f'c14-sym/{kind}/{name}')
+    pop = with_fitness([pg.random_dna(space(name), r) for _ in range(SYM_POP_SIZE[kind])], r)
+    _SYM_POP[k] = (pop, Frozen(pop))
+  return _SYM_POP[k][0]
+
+
+def sym_pop_diff(kind, name, seed):
+  """None if the cached population is as it was built, else what changed
+  (the population is then rebuilt for the next user)."""
+  pop, fz = _SYM_POP[(kind, name, seed)]
+  d = fz.diff()
+  if d is not None:
+    del _SYM_POP[(kind, name, seed)]
+  return d
+
+
+def _canon(o, members):
+  if isinstance(o, list):
+    return [_canon(x, members) for x in o]
+  for i, m in enumerate(members):
+    if o is m:
+      return ('member', i)
+  if isinstance(o, pg.DNA):
+    return ('dna', raw(o), sorted((k, repr(v)) for k, v in o.metadata.items()))
+  return ('other', repr(o))
+
+
+def sym_calls(op, kind, name, pop, keep=None, n_calls=None):
+  """Outcomes of calling `op` on pop at steps 0, 1(, 2)."""
+  S = space(name)
+  if kind == 'evo':
+    return evo_trace(op, S, 5)
+  res = []
+  members = list(pop)
+  for st in SYM_STEPS[:n_calls or (2 if kind in SYM_DNA_KINDS else 3)]:
+    if kind == 'nested':
+      a, b, c, d, e, f = members
+      ps = [[a, [b]], [c, d], [], e, [[[f]]]]
+    else:
+      ps = list(members)
+    try:
+      out = op(ps, step=st)
+    except Exception as e:  # pylint: disable=broad-except
+      res.append(('exc', type(e).__name__))
+      continue
+    if keep is not None and not keep:
+      keep.append(out)
+    res.append(('ok', _canon(out, members)) if isinstance(out, list)
+               else ('not-a-list', type(out).__name__))
+  return res
+
+
+def _set_by_path(root, path, value):
+  kp = pg.KeyPath.parse(path)
+  parent = kp.parent.query(root)
+  with pg.allow_writable_accessors(True):
+    if isinstance(parent, pg.Object):
+      setattr(parent, kp.key, value)
+    else:
+      parent[kp.key] = value
+
+
+SYM_CONTEXTS = [
+    # name, composition around the operator X, kinds of X it accepts
+    ('pipeline', 'base.Identity() >> X >> (lambda xs: xs)', 'sel mut rec2 recN'),
+    ('concatenation', 'X + selectors.First(0)', 'sel mut rec2 recN'),
+    ('union', 'selectors.First(0) | X', 'sel mut rec2 recN'),
+    ('choice', 'base.Choice([(X, 1.0)], seed=3)', 'sel mut rec2 recN'),
+    ('slice', 'X[0:9]', 'sel mut rec2 recN'),
+    ('repeat', 'X * 2', 'sel mut rec2 recN'),
+    ('power', 'X ** 1', 'sel mut rec2 recN'),
+    ('if_true', 'X.if_true(lambda xs: True)', 'sel mut rec2 recN'),
+    ('conditional', 'base.Conditional(lambda xs: False, base.Identity(), X)', 'sel mut rec2 recN'),
+    ('until_change', 'X.until_change(2)', 'sel mut rec2 recN'),
+    ('for_each', 'base.Lambda(lambda xs: [xs]).for_each(X).flatten()', 'sel mut rec2 recN'),
+    ('global-state', "X.as_global_state('k') >> base.GlobalStateGetter('k')", 'sel mut rec2 recN'),
+    ('symmetric-difference', 'X ^ selectors.First(0)', 'sel mut rec2 recN'),
+    ('nested', '(base.Identity() >> (X + selectors.First(0)))[0:9].if_true(lambda xs: True)',
+     'sel mut rec2 recN'),
+    ('intersection', 'X & base.Identity()', 'sel'),
+    ('difference', 'base.Identity() - X', 'sel'),
+    ('inversion', '~X', 'sel'),
+]
+_EVO_TAIL = ('population_init=(pg.geno.Random(seed=5), 4), population_update=selectors.Last(6))')
+SYM_EVOLUTION = dict(
+    sel=f'ev.Evolution((X + selectors.Last(1)) >> selectors.First(1) >> mutators.Uniform(seed=5), {_EVO_TAIL}',
+    mut=f'ev.Evolution(selectors.Last(1) >> X, {_EVO_TAIL}',
+    rec2=f'ev.Evolution(selectors.Last(2) >> X >> selectors.First(1), {_EVO_TAIL}',
+    recN=f'ev.Evolution(selectors.Last(3) >> X >> selectors.First(1), {_EVO_TAIL}')
+
+
+def sym_context(ctx, kind, inner):
+  """(callable object, kind of run) for operator `inner` inside context ctx."""
+  if ctx is None:
+    return inner, kind
+  if ctx == 'evolution':
+    return eval(SYM_EVOLUTION[kind], dict(ENV, X=inner)), 'evo'  # pylint: disable=eval-used
+  tmpl = dict((c[0], c[1]) for c in SYM_CONTEXTS)[ctx]
+  return eval(tmpl, dict(ENV, X=inner)), kind  # pylint: disable=eval-used
+
+
+SYM_DIRECT_ROUTES = ['rebind', 'rebind-kwargs', 'rebind-fn', 'setattr', 'rebind-one-by-one',
+                     'rebind-there-and-back', 'clone-override', 'deep-clone-override', 'after-use']
+SYM_CONTEXT_ROUTES = ['context-path', 'context-handle', 'context-replace', 'context-clone-override']
+SYM_COPY_ROUTES = ['clone', 'deep-clone', 'copy.copy', 'copy.deepcopy', 'json']
+SYM_GROUP = {
+    'rebind': 'in-place', 'rebind-kwargs': 'in-place', 'rebind-fn': 'in-place', 'setattr': 'in-place',
+    'rebind-one-by-one': 'in-place', 'rebind-there-and-back': 'in-place',
+    'clone-override': 'clone-override', 'deep-clone-override': 'clone-override',
+    'after-use': 'after-use',
+    'context-path': 'in-composition', 'context-handle': 'in-composition',
+    'context-replace': 'in-composition', 'context-clone-override': 'in-composition',
+}
+
+
+class RouteUnavailable(Exception):
+  """The route cannot express this change (not a failure)."""
+
+
+def sym_route(route, a_src, b_src, delta_src, back_src, ctx, kind, name, seed):
+  """Builds the operator of a_src, brings it to the parameters of b_src via
+  `route` (inside composition `ctx`, if any) and returns (callable, run kind).
+
+  delta_src: {path: source of the new value}; back_src: the values of a_src.
+  """
+  delta = lambda: {k: make(v) for k, v in delta_src.items()}
+  if route in SYM_COPY_ROUTES:
+    b = make(b_src)
+    if route == 'clone':
+      c = b.clone()
+    elif route == 'deep-clone':
+      c = b.clone(deep=True)
+    elif route == 'copy.copy':
+      c = copy_lib.copy(b)
+    elif route == 'copy.deepcopy':
+      c = copy_lib.deepcopy(b)
+    else:
+      try:
+        c = pg.from_json_str(pg.to_json_str(b))
+      except Exception as e:  # pylint: disable=broad-except
+        raise RouteUnavailable(f'not serialisable: {type(e).__name__}') from e
+    return sym_context(ctx, kind, c)
+  a = make(a_src)
+  if route in SYM_CONTEXT_ROUTES:
+    outer, okind = sym_context(ctx, kind, a)
+    if route == 'context-handle':
+      a.rebind(delta())
+      return outer, okind
+    if a.sym_root is not outer or a.sym_parent is None:
+      raise RouteUnavailable('the operator is not addressable by a path (held in a tuple)')
+    prefix = str(a.sym_path)
+    if route == 'context-path':
+      outer.rebind({f'{prefix}.{k}': v for k, v in delta().items()})
+    elif route == 'context-replace':
+      outer.rebind({prefix: make(b_src)})
+    else:
+      outer = outer.clone(deep=True, override={f'{prefix}.{k}': v for k, v in delta().items()})
+    return outer, okind
+  if route == 'rebind':
+    a.rebind(delta())
+  elif route == 'rebind-kwargs':
+    if not all(k.isidentifier() for k in delta_src):
+      raise RouteUnavailable('nested path')
+    a.rebind(**delta())
+  elif route == 'rebind-fn':
+    d = delta()
+    a.rebind(lambda kp, v, p: d[str(kp)] if str(kp) in d else v)
+  elif route == 'setattr':
+    for k, v in delta().items():
+      _set_by_path(a, k, v)
+  elif route == 'rebind-one-by-one':
+    if len(delta_src) < 2:
+      raise RouteUnavailable('single parameter')
+    for k, v in delta().items():
+      a.rebind({k: v})
+  elif route == 'rebind-there-and-back':
+    a = make(b_src)
+    a.rebind({k: make(v) for k, v in back_src.items()})
+    a.rebind(delta())
+  elif route == 'clone-override':
+    a = a.clone(override=delta())
+  elif route == 'deep-clone-override':
+    a = a.clone(deep=True, override=delta())
+  elif route == 'after-use':
+    pop = sym_pop(kind, name, seed)
+    sym_calls(a, kind, name, pop)
+    a.rebind(delta())
+  else:
+    raise AssertionError(route)
+  return a, kind
+
+
+_SYM_REF = {}
+
+
+def sym_reference(b_src, ctx, kind, name, seed):
+  """What a freshly constructed operator b_src (inside ctx) does."""
+  k = (b_src, ctx, kind, name, seed)
+  if k not in _SYM_REF:
+    pop = sym_pop(kind, name, seed)
+    keep = []
+    try:
+      outer, okind = sym_context(ctx, kind, make(b_src))
+      res = sym_calls(outer, okind, name, pop, keep)
+    except Exception as e:  # pylint: disable=broad-except
+      res = ('exc', type(e).__name__, str(e)[:200])
+    valid = all(check_child(c, space(name)) is None for c in (keep[0] if keep else [])
+                if isinstance(c, pg.DNA))
+    sym_pop_diff(kind, name, seed)
+    _SYM_REF[k] = (res, valid)
+  return _SYM_REF[k]
+
+
+def sym_check(route, a_src, b_src, delta_src, back_src, ctx, kind, name, seed, verify=True, n_calls=None):
+  """Returns {check: (ok, message)} for one (operator, change, route).
+
+  verify: also check validity/alignment of the outputs and the inputs.
+  n_calls: number of successive calls compared (default: 2 for DNA operators,
+  3 for list operators).
+  """
+  S = space(name)
+  want, ref_valid = sym_reference(b_src, ctx, kind, name, seed)
+  pop = sym_pop(kind, name, seed)
+  keep = []
+  try:
+    outer, okind = sym_route(route, a_src, b_src, delta_src, back_src, ctx, kind, name, seed)
+  except RouteUnavailable:
+    return {}
+  except Exception as e:  # pylint: disable=broad-except
+    return {'same': (False, f'applying the change raised {type(e).__name__}: {str(e)[:300]}')}
+  got = sym_calls(outer, okind, name, pop, keep, n_calls)
+  if isinstance(want, list) and isinstance(got, list) and okind != 'evo':
+    want = want[:len(got)]
+  out = {}
+  if got == want:
+    out['same'] = (True, '')
+  else:
+    i = next((j for j, (x, y) in enumerate(zip(got, want)) if x != y), '?') if (
+        isinstance(got, list) and isinstance(want, list)) else '?'
+    show = lambda r: repr(r[i] if isinstance(i, int) else r)[:260]
+    out['same'] = (False, f'call #{i}: the re-parameterised operator gives {show(got)}, a freshly constructed '
+                   f'{b_src} gives {show(want)}')
+  if verify and keep and ref_valid and isinstance(keep[0], list):
+    bad = None
+    for c in keep[0]:
+      if isinstance(c, pg.DNA) and not _isin(c, pop):
+        bad = check_child(c, S)
+        if bad:
+          break
+    out['valid'] = (bad is None, bad and f'{bad[0]}: {bad[1]}')
+  if verify or not out['same'][0]:
+    d = sym_pop_diff(kind, name, seed)
+    out['inputs'] = (d is None, d)
+  return out
+
+
+def sym_replay(route, a_src, b_src, delta_src, back_src, ctx, kind, name, seed, check='same'):
+  """Witness entry point: raises AssertionError if the check fails."""
+  res = sym_check(route, a_src, b_src, delta_src, back_src, ctx, kind, name, seed)
+  assert check in res, f'route {route} not applicable'
+  assert res[check][0], res[check][1]
+
+
+def sym_entries(seed, quick=False):
+  """Operator classes x parameters x values (the first value is the target)."""
+  t, o = str(seed + 7), str(seed + 1)
+  sd = (t, o, 'None')
+  ramp = 'lambda xs: [float(i + 1) for i in range(len(xs))]'
+  uni = 'lambda xs: [1.0] * len(xs)'
+  ent = []
+
+  def E(cls, kind, tmpl, params, paths=None, spaces=None, pure=False, rng_params=('seed',)):
+    if spaces is None:
+      spaces = ('flat',) if kind in ('sel', 'nested', 'evo') else ('wide',)
+    ent.append(dict(cls=cls, kind=kind, tmpl=tmpl, params=params, paths=paths or {},
+                    spaces=spaces, pure=pure,
+                    rng=[p for p in params if p in rng_params]))
+
+  # Selectors.
+  E('selectors.Random', 'sel', 'selectors.Random({n}, replacement={replacement}, seed={seed})',
+    dict(n=('3', '2', '0.5', 'None'), replacement=('False', 'True'), seed=sd))
+  E('selectors.Sample', 'sel', 'selectors.Sample({n}, {weights}, seed={seed})',
+    dict(n=('3', '1', '0.5'), weights=(ramp, uni), seed=sd))
+  E('selectors.Proportional', 'sel', 'selectors.Proportional({n}, {weights})',
+    dict(n=('4', '2', '0.5'), weights=(ramp, uni)), pure=True)
+  for cls in ('Top', 'Bottom'):
+    E(f'selectors.{cls}', 'sel', f'selectors.{cls}({{n}}, key={{key}}, cluster={{cluster}})',
+      dict(n=('2', '3', 'None', '0.5'),
+           key=('base.get_generation_id', 'base.get_fitness', 'lambda d: -base.get_fitness(d)'),
+           cluster=('True', 'False')), pure=True)
+  for cls in ('First', 'Last'):
+    E(f'selectors.{cls}', 'sel', f'selectors.{cls}({{n}})',
+      dict(n=('2', '4', '0.5', 'None', '(lambda step: 1 + step)', 'scalars.STEP + 1')), pure=True)
+  # Schedules below an operator.
+  E('scalars.Uniform', 'sel', 'selectors.First(scalars.Uniform(1, 4, seed={seed}))',
+    dict(seed=sd), paths=dict(seed='n.seed'))
+  E('scalars.Triangular', 'sel', 'selectors.Last(scalars.Triangular(1, 5, seed={seed}))',
+    dict(seed=sd), paths=dict(seed='n.seed'))
+  E('scalars.Addition', 'sel', 'selectors.Last(scalars.STEP + {y})',
+    dict(y=('1', '2')), paths=dict(y='n.y'), pure=True)
+  E('scalars.Floor', 'sel', 'selectors.First(scalars.Floor({x}))',
+    dict(x=('scalars.STEP * 1.5', '2.5')), paths=dict(x='n.x'), pure=True)
+  # Mutators.
+  E('mutators.Uniform', 'mut', 'mutators.Uniform(where={where}, seed={seed})',
+    dict(where=('lambda d: d.is_leaf', 'lambda d: isinstance(d.spec, pg.geno.Float)', 'None'), seed=sd),
+    spaces=('wide', 'perm', 'cond2'))
+  E('mutators.Swap', 'mut', 'mutators.Swap(where={where}, seed={seed})',
+    dict(where=('None', 'lambda d: len(d.children) > 3'), seed=sd), spaces=('perm2', 'perm'))
+  # Recombinators.
+  E('recombinators.Uniform', 'recN', 'recombinators.Uniform(where={where}, seed={seed})',
+    dict(where=('where.ALL', 'where.Any(k=2, seed=3)', 'lambda xs: xs[:2]'), seed=sd),
+    spaces=('wide', 'flat'))
+  E('where.Any', 'recN', 'recombinators.Uniform(where=where.Any(k={k}, seed={wseed}), seed={seed})',
+    dict(k=('3', '1', '(lambda step: 3)'), wseed=(t, o, 'None'), seed=(o, t)),
+    paths=dict(k='where.k', wseed='where.seed'), rng_params=('seed', 'wseed'))
+  E('recombinators.Sample', 'recN', 'recombinators.Sample({weights}, where={where}, seed={seed})',
+    dict(weights=(ramp, uni), where=('where.ALL', 'lambda xs: xs[1:]'), seed=sd),
+    spaces=('wide', 'flat'))
+  E('recombinators.Average', 'recN', 'recombinators.Average(where={where})',
+    dict(where=('where.ALL', 'lambda xs: xs[:-1]', 'lambda xs: []')), pure=True, spaces=('wide', 'floats'))
+  E('recombinators.WeightedAverage', 'recN', 'recombinators.WeightedAverage({weights}, where={where})',
+    dict(weights=(ramp, uni), where=('where.ALL', 'lambda xs: xs[:-1]')), pure=True,
+    spaces=('wide', 'floats'))
+  E('recombinators.KPoint', 'rec2', 'recombinators.KPoint({k}, seed={seed})',
+    dict(k=('2', '1', '3', '(lambda step: 2)'), seed=sd), spaces=('wide', 'perm2'))
+  E('recombinators.Segmented', 'rec2', 'recombinators.Segmented({cutting_points})',
+    dict(cutting_points=('lambda xs: [len(xs) // 2]', 'lambda xs: [1, 3]', 'lambda xs: []')), pure=True)
+  for cls in ('PartiallyMapped', 'Order', 'Cycle'):
+    E(f'recombinators.{cls}', 'rec2', f'recombinators.{cls}(where={{where}}, seed={{seed}})',
+      dict(where=('where.ALL', 'where.Any(seed=3)', 'lambda xs: xs[:1]'), seed=sd),
+      spaces=('perm2', 'perm'))
+    E(f'recombinators.{cls}', 'rec2', f'recombinators.{cls}(seed={{seed}})', dict(seed=sd),
+      spaces=('perm6', 'perm2'))
+    if quick and cls != ('PartiallyMapped', 'Order', 'Cycle')[seed % 3]:
+      continue
+    E(f'recombinators.{cls}', 'rec2', f'recombinators.{cls}(where=where.Any(k={{wk}}, seed={{wseed}}), seed={{seed}})',
+      dict(wk=('2', '1'), wseed=(t, o), seed=(o, t, 'None')),
+      paths=dict(wk='where.k', wseed='where.seed'), rng_params=('seed', 'wseed'), spaces=('perm2',))
+  # Compositions: their own parameters and their operands.
+  E('base.Choice', 'sel', 'base.Choice([{op0}, {op1}], limit={limit}, seed={seed})',
+    dict(op0=('(selectors.First(4), 0.5)', '(selectors.First(4), 0.9)', '(selectors.Top(2), 0.5)'),
+         op1=('(selectors.Last(3), 0.5)', '(selectors.Last(3), 0.0)'),
+         limit=('None', '1'), seed=sd), paths=dict(op0='ops[0]', op1='ops[1]'))
+  E('base.Choice', 'sel', 'base.Choice({ops}, seed={seed})',
+    dict(ops=('[(selectors.First(4), 0.5), (selectors.Last(3), 0.5)]', '[(selectors.Top(2), 0.9)]'),
+         seed=sd))
+  E('base.Power', 'mut', '(mutators.Uniform(seed={mseed}) ** {k})',
+    dict(k=('2', '1', '3', '(lambda step: 2)'), mseed=sd), paths=dict(mseed='op.seed'), rng_params=('mseed',))
+  E('base.Repeat', 'mut', '(mutators.Uniform(seed={mseed}) * {k})',
+    dict(k=('2', '1', '3', '(lambda step: 2)'), mseed=sd), paths=dict(mseed='op.seed'), rng_params=('mseed',))
+  E('base.Power', 'sel', 'base.Power({op}, {k})',
+    dict(op=('base.Identity()[1:]', 'selectors.Top(4)[:-1]'), k=('2', '1', '0')), pure=True)
+  E('base.Repeat', 'sel', 'base.Repeat({op}, {k})',
+    dict(op=('selectors.First(2)', 'selectors.Top(1)'), k=('2', '1', '0')), pure=True)
+  E('base.Slice', 'sel', 'base.Slice({op}, {index})',
+    dict(op=('selectors.Top(4)', 'selectors.Last(3)'),
+         index=('slice(1, 3)', 'slice(0, 2)', '0', '(lambda step: slice(0, 1))')), pure=True)
+  E('base.UntilChange', 'sel', 'base.UntilChange(selectors.Last(2).with_prob(0.3, seed={cseed}), {max_attempts})',
+    dict(max_attempts=('5', '1', '2'), cseed=sd), paths=dict(cseed='op.seed'), rng_params=('cseed',))
+  E('base.UntilChange', 'sel', 'base.UntilChange({op}, 2)',
+    dict(op=('selectors.First(2)', 'selectors.Last(1)')), pure=True)
+  E('base.Conditional', 'sel', 'base.Conditional({predicate}, {true_op}, {false_op})',
+    dict(predicate=('lambda xs: len(xs) > 2', 'lambda xs: False', 'lambda xs, step: step % 2 == 0'),
+         true_op=('selectors.First(2)', 'selectors.Top(1)'),
+         false_op=('selectors.Last(1)', 'None', 'selectors.Bottom(2)')), pure=True)
+  E('base.Conditional', 'sel', 'base.Conditional({predicate}, {true_op}, {false_op})',
+    dict(predicate=('lambda xs: False', 'lambda xs: True'),
+         true_op=('selectors.First(2)', 'selectors.Top(1)'),
+         false_op=('selectors.Last(1)', 'None', 'selectors.Bottom(2)')), pure=True)
+  E('base.Lambda', 'sel', 'base.Lambda({fn})',
+    dict(fn=('lambda xs: xs[::-1]', 'lambda xs: xs[:1]', 'lambda xs, step: xs[step:]')), pure=True)
+  E('base.Inversion', 'sel', 'base.Inversion({op})',
+    dict(op=('selectors.First(2)', 'selectors.Top(3)')), pure=True)
+  E('base.ElementWise', 'sel',
+    'base.Pipeline([base.Lambda(lambda xs: [xs[:3], xs[3:]]), base.ElementWise({op}), base.Flatten()])',
+    dict(op=('selectors.First(1)', 'selectors.Last(2)')), paths=dict(op='ops[1].op'), pure=True)
+  E('base.Flatten', 'nested', 'base.Flatten({max_level})', dict(max_level=('1', '2', 'None')), pure=True)
+  E('base.GlobalState', 'sel',
+    'base.Pipeline([selectors.First(2), base.GlobalStateSetter({skey}), base.GlobalStateGetter({key}, {default})])',
+    dict(skey=("'k'", "'j'"), key=("'k'", "'j'"), default=('[]', 'None')),
+    paths=dict(skey='ops[1].key', key='ops[2].key', default='ops[2].default'), pure=True)
+  E('base.GlobalState', 'sel',
+    "base.Pipeline([selectors.First(2), base.GlobalStateSetter('k', {value}), base.GlobalStateGetter('k')])",
+    dict(value=('(pg.MISSING_VALUE,)', '[]')), paths=dict(value='ops[1].value'), pure=True)
+  for cls in ('Pipeline', 'Concatenation', 'Union', 'Intersection', 'Difference', 'SymmetricDifference'):
+    E(f'base.{cls}', 'sel', f'base.{cls}([{{x}}, {{y}}])',
+      dict(x=('selectors.First(3)', 'selectors.Top(3)'), y=('selectors.Top(2)', 'selectors.Last(2)')),
+      paths=dict(x='ops[0]', y='ops[1]'), pure=True)
+    E(f'base.{cls}', 'sel', f'base.{cls}({{ops}})',
+      dict(ops=('[selectors.First(3), selectors.Top(2)]',
+                '[selectors.Last(4), selectors.Bottom(3), selectors.First(5)]')), pure=True)
+  E('base.Pipeline', 'rec2',
+    'base.Pipeline([recombinators.KPoint(2, seed={rseed}), mutators.Uniform(seed={mseed})])',
+    dict(rseed=sd, mseed=sd), paths=dict(rseed='ops[0].seed', mseed='ops[1].seed'),
+    rng_params=('rseed', 'mseed'))
+  if not quick:
+    E('base.Concatenation', 'recN',
+      'base.Concatenation([recombinators.Uniform(seed={rseed}), mutators.Uniform(seed={mseed})])',
+      dict(rseed=sd, mseed=sd), paths=dict(rseed='ops[0].seed', mseed='ops[1].seed'),
+      rng_params=('rseed', 'mseed'))
+  # The Evolution loop itself.
+  E('Evolution', 'evo',
+    'ev.Evolution(base.Pipeline([selectors.Random(2, seed={sseed}), recombinators.KPoint(2, seed={rseed}), '
+    'selectors.First(1), mutators.Uniform(seed={mseed})]), '
+    'population_init=(pg.geno.Random(seed=5), 4), population_update=selectors.Last({n}))',
+    dict(sseed=sd, rseed=sd, mseed=sd, n=('5', '3')),
+    paths=dict(sseed='reproduction.ops[0].seed', rseed='reproduction.ops[1].seed',
+               mseed='reproduction.ops[3].seed', n='population_update.n'),
+    rng_params=('sseed', 'rseed', 'mseed'), spaces=('wide', 'perm2'))
+  return ent
+
+
+def drv_symbolic(tier, seed):
+  random.seed(f'c14/drv_symbolic/{seed}')   # code under test falls back to the global RNG
+  quick = tier == 'quick'
+  entries = sym_entries(seed, quick)
+  rec = Recorder(
+      'C14', 'operators re-parameterised through the symbolic APIs behave like freshly constructed '
+      'operators with the same parameters (seed included)',
+      scope=f'{len(entries)} operator templates (every selector, mutator, recombinator, where.Any, seeded and '
+      'arithmetic schedules, every composition class, global state, the Evolution loop) x every parameter x '
+      '2-5 alternative values (+ all parameters at once) x routes: rebind (dict / kwargs / function / one by one / '
+      f'there and back), attribute assignment, clone(override) shallow and deep, rebind after use; inside '
+      f'{len(SYM_CONTEXTS)} compositions and an Evolution: rebind by path from the root, rebind of the held '
+      'operand, replacement of the operand, clone(override) of the root; copies (clone, deep clone, copy, '
+      'deepcopy, JSON round trip); 3 successive calls (steps 0..2) per operator; populations of 6 DNAs '
+      '(selectors), 2-3 parents (DNA operators)')
+
+  def case(cid, key, res, wit):
+    ok, msg = res
+    if ok:
+      rec.case(cid, key, True)
+    else:
+      rec.case(cid, key, False, msg, wit())
+
+  vi = 0
+  for ei, en in enumerate(entries):
+    cls, kind, tmpl, params, paths = en['cls'], en['kind'], en['tmpl'], en['params'], en['paths']
+    target = {p: v[0] for p, v in params.items()}
+    b_src = tmpl.format(**target)
+    variants = []
+    for p, vals in params.items():
+      for ai, alt in enumerate(vals[1:]):
+        variants.append((paths.get(p, p), dict(target, **{p: alt}), [p], ai == 0))
+    if len(params) > 1:
+      variants.append(('all-params', {p: v[1] for p, v in params.items()}, list(params), True))
+    names = en['spaces'][:1] if quick else en['spaces']
+    cheap = kind in ('sel', 'nested')
+    accepted = [c[0] for c in SYM_CONTEXTS if kind in c[2].split()] + ['evolution']
+    for name in names:
+      # Copies of a fresh operator.
+      copies = SYM_COPY_ROUTES
+      if quick:
+        copies = [SYM_COPY_ROUTES[(ei + seed) % 4], 'json'] if cheap else [SYM_COPY_ROUTES[(ei + seed) % 5]]
+      for route in copies:
+        ctxs = [None] if (kind in ('evo', 'nested') or quick) else [None, 'pipeline', 'evolution']
+        for ctx in ctxs:
+          args = (route, b_src, b_src, {}, {}, ctx, kind, name, seed)
+          res = sym_check(*args, verify=not quick)
+          key = (cls, b_src, route, ctx, name)
+          wit = lambda args=args, chk='same': (
+              SHDR + f'# a copy ({args[0]}) of {args[2]} must behave like the original\n'
+              f'sym_replay(*{args!r}, check={chk!r})')
+          if 'same' in res:
+            case(f'symbolic.{cls}.copy-behaves-as-fresh', key, res['same'], wit)
+          if 'valid' in res:
+            case(f'symbolic.{cls}.valid+aligned', key, res['valid'], lambda: wit(chk='valid'))
+      for label, a_params, changed, primary in variants:
+        vi += 1
+        rot = vi + seed
+        a_src = tmpl.format(**a_params)
+        delta_src = {paths.get(p, p): target[p] for p in changed}
+        back_src = {paths.get(p, p): a_params[p] for p in changed}
+        seed_change = [p for p in changed if p in en['rng']]
+        after_use = en['pure'] or (len(en['rng']) == 1 and bool(seed_change)
+                                   and target[seed_change[0]] != 'None')
+        others = [r for r in SYM_DIRECT_ROUTES if r != 'rebind' and (r != 'after-use' or after_use)
+                  and (r != 'rebind-one-by-one' or len(changed) > 1)
+                  and (r != 'rebind-kwargs' or all(k.isidentifier() for k in delta_src))]
+        if not quick:
+          routes = [('rebind', None)] + [(r, None) for r in others]
+        elif cheap:
+          if primary:
+            routes = [('rebind', None), (others[rot % len(others)], None),
+                      (others[(rot + 3) % len(others)], None)]
+          else:
+            routes = [((['rebind'] + others)[rot % (1 + len(others))], None)]
+        elif label == 'all-params':
+          routes = [(others[rot % len(others)], None)]
+        elif primary:
+          # (DNA operators cost 25-90 ms per call: every parameter by rebind,
+          # seeds by two more routes, the other routes rotate with the seed
+          # of the run)
+          routes = [('rebind', None)] + ([(others[rot % len(others)], None)] if seed_change else [])
+        else:
+          routes = [((['rebind'] + others)[rot % (1 + len(others))], None)] if rot % 3 == 0 else []
+        if kind not in ('evo', 'nested') and (primary or not quick):
+          # (thorough: 2 compositions per change, all of them over the changes
+          # of an operator template; none for the secondary values)
+          ctxs = [accepted[(rot * 3 + j * 5) % len(accepted)] for j in range(2)] if primary else []
+          if quick:
+            # (one composition per operator template and seed keeps the
+            # reference runs shared; the seed of the run rotates through them)
+            n_ctx = 1 if (seed_change or (cheap and rot % 2)) else 0
+            ctxs = [accepted[(ei * 5 + seed) % len(accepted)]][:n_ctx]
+          for c in ctxs:
+            if quick:
+              routes.append((SYM_CONTEXT_ROUTES[rot % 4], c))
+              if cheap and seed_change and rot % 4:
+                routes.append(('context-path', c))
+            else:
+              routes.extend((r, c) for r in SYM_CONTEXT_ROUTES)
+        for ri, (route, ctx) in enumerate(routes):
+          args = (route, a_src, b_src, delta_src, back_src, ctx, kind, name, seed)
+          res = sym_check(*args, verify=(not quick or (ri == 0 and (cheap or primary))),
+                          n_calls=(1 if quick and not cheap and not seed_change else None))
+          if not res:
+            continue
+          key = (cls, a_src, b_src, route, ctx, name)
+          group = SYM_GROUP[route] if ctx != 'evolution' else 'in-evolution'
+          wit = lambda args=args, chk='same': (
+              SHDR + f'# {args[1]}\n#   brought to {args[3]} via {args[0]}'
+              + (f' inside composition {args[5]!r}' if args[5] else '')
+              + f'\n# must behave like a fresh {args[2]}\n'
+              f'sym_replay(*{args!r}, check={chk!r})')
+          case(f'symbolic.{cls}.{label}.behaves-as-fresh/{group}', key, res['same'], wit)
+          if 'valid' in res:
+            case(f'symbolic.{cls}.valid+aligned', key, res['valid'], lambda: wit(chk='valid'))
+          if 'inputs' in res:
+            case(f'symbolic.{cls}.inputs-unchanged', key, res['inputs'], lambda: wit(chk='inputs'))
+  return rec.result()
+
+
 DRIVERS = [drv_flatten_foreach, drv_mutators, drv_recombinators, drv_selectors, drv_algebra, drv_pipelines,
-           drv_weighted, drv_schedules]
+           drv_weighted, drv_schedules, drv_symbolic]
 
 
 def replay(rec):
